@@ -931,6 +931,14 @@ int main(int argc, char **argv)
                 run_case(&a, idx, &VARS[v0 + rep % nv], (size_t)(rep % 7), FIXED[rep / nv], (int)rep, 1);
             }
     }
+    /* power-of-two neighbourhoods 2^k-1, 2^k, 2^k+1 (k = 7..15) as message length and as AD length, variants rotating */
+    if (NL > 0 && !F_TAMPER)
+        for (rep = 0; rep < 9 * 3 * 2; ++rep, ++idx) {
+            size_t L = ((size_t)1 << (7 + rep / 6)) + (size_t)((rep / 2) % 3) - 1;
+            if (!mine(&a, idx)) continue;
+            if (rep % 2) run_case(&a, idx, &VARS[v0 + (rep / 2) % nv], L, (size_t)(rep % 9), (int)rep, 1);
+            else run_case(&a, idx, &VARS[v0 + (rep / 2) % nv], (size_t)(rep % 11), L, (int)rep, 1);
+        }
     for (rep = 0; rep < NL; ++rep, ++idx) {
         rng_t r = rng_for(a.seed, 0x1046, (uint64_t)rep);
         size_t mlen, adlen;
